@@ -27,7 +27,11 @@ Record decl := {
 
 Record pdef := { pf_origin : bytes; pf_name : bytes; pf_val : bytes }.   (* origin "" or "profile@ID" *)
 
-Record pom := { pm_path : bytes; pm_decls : list decl; pm_props : list pdef }.
+Record pom := {
+  pm_path : bytes;
+  pm_decls : list decl;
+  pm_props : list pdef;
+  pm_empty_mgmt : bool }.   (* the project has a <dependencyManagement> whose <dependencies> holds no <dependency> *)
 
 Definition chain := list pom.   (* main pom first, then its local parents *)
 
@@ -216,9 +220,42 @@ Fixpoint all_some {A} (l : list (option A)) : option (list A) :=
   | None :: _ => None
   end.
 
+(* Added dependencyManagement entries (updates whose key no listed declaration carries: exist = false, always
+   filed under the main pom, origin "management"). writeDependency inserts them at the head of the project's
+   <dependencyManagement><dependencies>; when the project has no <dependencyManagement> element, write() appends
+   one holding them. Either way the main pom gains project-level "management" declarations. (Their order among
+   themselves -- sorted "for consistency in testing" -- and the XML of the block are token-level matters.)
+   When the project has no dependencyManagement element it has no "management" declaration, hence no exist = true
+   patch under that origin: only exist = false patches are listed here.
+   DEFECT reproduced: when the project's <dependencyManagement> has an EMPTY <dependencies> element (pm_empty_mgmt),
+   the encoder closes that element before the new <dependency> elements are written: they land outside
+   <dependencies>, no reader lists them, Write returns nil -- at this level: nothing is added. *)
+Definition added_pairs (ps : list patch) : list (bytes * bytes) :=
+  distinct_pairs (flat_map (fun p => match p with
+                                     | DepPatch pa o k t false => if is_nil pa && beq o MANAGEMENT then [(k, t)] else []
+                                     | _ => []
+                                     end) ps).
+
+Definition front_origin (d : decl) : bool := beq (dl_origin d) PARENT || is_nil (dl_origin d).
+
+Fixpoint insert_added (adds : list decl) (ds : list decl) : list decl :=
+  match ds with
+  | d :: r => if front_origin d then d :: insert_added adds r else adds ++ ds
+  | [] => adds
+  end.
+
+Definition added_decl (kt : bytes * bytes) : decl :=
+  {| dl_origin := MANAGEMENT; dl_key := fst kt; dl_ver := snd kt; dl_listed := true |}.
+
 Definition write_pom (ps : list patch) (i : nat) (p : pom) : option pom :=
   match all_some (map (write_decl ps (patch_path i p)) (pm_decls p)) with
-  | Some ds => Some {| pm_path := pm_path p; pm_decls := ds; pm_props := map (write_prop ps (patch_path i p)) (pm_props p) |}
+  | Some ds => Some {| pm_path := pm_path p;
+                       pm_decls := match i with
+                                   | O => if pm_empty_mgmt p then ds else insert_added (map added_decl (added_pairs ps)) ds
+                                   | S _ => ds
+                                   end;
+                       pm_props := map (write_prop ps (patch_path i p)) (pm_props p);
+                       pm_empty_mgmt := pm_empty_mgmt p |}
   | None => None
   end.
 
@@ -311,6 +348,39 @@ Definition all_decls (c : chain) : list (nat * decl) :=
 Definition count_key (c : chain) (key : bytes) : nat :=
   length (filter (fun id => beq key (dl_key (snd id)) && negb (is_nil (dl_ver (snd id)))) (all_decls c)).
 
+Definition no_placeholder (s : bytes) : bool := negb (contains DB s).
+
+(* an update ADDS a managed dependency when no declaration of the chain carries its key with a version *)
+Definition declared (c : chain) (key : bytes) : bool :=
+  existsb (fun id => beq key (dl_key (snd id)) && negb (is_nil (dl_ver (snd id)))) (all_decls c).
+Definition is_add (c : chain) (u : pupd) : bool := negb (declared c (pu_key u)).
+
+Definition is_added_entry (c : chain) (ups : list pupd) (e : nat * bytes * bytes * bytes) : bool :=
+  match e with
+  | (i, o, k, _) => Nat.eqb i 0 && beq o MANAGEMENT && existsb (fun u => is_add c u && beq (pu_key u) k) ups
+  end.
+
+Definition entry_eqb (a b : nat * bytes * bytes * bytes) : bool := beq4 [a] [b].
+
+(* the spec with added entries: apart from them every declaration is as decl_spec_ok wants it, and every added
+   requirement is a project-level "management" declaration of the main pom standing for VersionTo *)
+Definition decl_spec_all (c : chain) (ups : list pupd) (c' : chain) : bool :=
+  beq4 (filter (fun e => negb (is_added_entry c ups e)) (eff_all c')) (want_all c ups) &&
+  forallb (fun u => negb (is_add c u) ||
+                    existsb (entry_eqb (O, MANAGEMENT, pu_key u, pu_to u)) (eff_all c')) ups.
+
+(* D_add: the update adds a managed dependency: its key is declared nowhere with a version, it addresses no
+   declaration, the main pom has no (version-less) "management" declaration of that key and no empty
+   <dependencyManagement><dependencies/> (known finding), VersionTo is literal *)
+Definition d_add (c : chain) (u : pupd) : bool :=
+  is_add c u && no_placeholder (pu_to u) &&
+  negb (existsb (fun id => addresses u (fst id) (snd id)) (all_decls c)) &&
+  match c with
+  | p :: _ => negb (existsb (fun d => beq (dl_origin d) MANAGEMENT && beq (dl_key d) (pu_key u)) (pm_decls p)) &&
+              negb (pm_empty_mgmt p)
+  | [] => false
+  end.
+
 (* well-formed chains: what every chain read from real pom files satisfies. Parent paths are non-empty,
    free of "@" and pairwise different; an origin does not start with "parent@"; inside one pom no two
    declarations share origin and key (Maven rejects duplicate declarations in one block); one <parent>. *)
@@ -331,7 +401,6 @@ Definition pom_wf (p : pom) : bool :=
 Definition chain_wf (c : chain) : bool :=
   forallb pom_wf c && forallb (fun p => path_ok (pm_path p)) (tl c) && nodupb (map pm_path (tl c)).
 
-Definition no_placeholder (s : bytes) : bool := negb (contains DB s).
 
 (* D_lit: any number of updates; pairwise different keys; every key is declared exactly once in the
    chain (version non-empty) and that declaration is the addressed one and is listed; the declared
@@ -361,12 +430,10 @@ Definition users (c : chain) (j : nat) (scope name : bytes) : nat :=
 Definition written_scope (c : chain) (origin name : bytes) : bytes :=
   property_origin c (if prefixb PROFILE origin then cut_suffix AT_MANAGEMENT origin else []) name.
 
-(* D_full, the domain the oracle claims: as d_lit, but a declared version may use ${properties}: then,
-   when generatePropertyPatches succeeds, for every placeholder the definition in effect sits in the
-   declaring pom, in the block buildPatches writes to, and no other declaration of the chain uses it. *)
-Definition d_full (c : chain) (ups : list pupd) : bool :=
-  chain_wf c && nodupb (map pu_key ups) &&
-  forallb (fun u =>
+(* the per-update condition of D_full: as d_lit, but a declared version may use ${properties}: then, when
+   generatePropertyPatches succeeds, for every placeholder the definition in effect sits in the declaring pom, in
+   the block buildPatches writes to, and no other declaration of the chain uses it *)
+Definition d_upd (c : chain) (u : pupd) : bool :=
     addressed_decl c u && Nat.eqb (count_key c (pu_key u)) 1 && no_placeholder (pu_to u) &&
     match original_dependency c (pu_key u) with
     | Some (_, d) =>
@@ -382,12 +449,16 @@ Definition d_full (c : chain) (ups : list pupd) : bool :=
            | _ => false
            end
     | None => false
-    end) ups.
+    end.
+
+(* D_full, the domain the oracle claims: every update satisfies d_upd or adds a managed dependency (d_add) *)
+Definition d_full (c : chain) (ups : list pupd) : bool :=
+  chain_wf c && nodupb (map pu_key ups) && forallb (fun u => d_upd c u || d_add c u) ups.
 
 (* D_prop: ONE update of a ${property} version on which generatePropertyPatches succeeds, no placeholder
-   name twice in the version; otherwise as D_full. *)
+   name twice in the version; otherwise as d_upd. *)
 Definition d_prop (c : chain) (u : pupd) : bool :=
-  d_full c [u] &&
+  chain_wf c && d_upd c u &&
   match original_dependency c (pu_key u) with
   | Some (_, d) => contains_property (dl_ver d) && nodupb (names (dl_ver d)) &&
                    match generate_property_patches (dl_ver d) (pu_to u) with Ok (_, true) => true | _ => false end
